@@ -17,7 +17,12 @@ META = {
             "through Object::from(DateTime<Local>|DateTime<Utc>|Zoned|Timestamp|OffsetDateTime) and every produced string "
             "(and the spec's own strings) through as_datetime().try_into() of all three backends; results must equal the "
             "declarative layer's. Seeded random (instant, offset) pairs over the whole domain are converted by lopdf and "
-            "judged record by record by TLC.",
+            "judged record by record by TLC. History and zones with rules: TLC enumerates sequences of instants around "
+            "both clock changes of zones with a POSIX daylight-saving rule (northern, southern, west of UTC, half-hour "
+            "shifts, odd change times, fixed) and checks that the string is a function of the instant and the rule only "
+            "(the design 'offset suffix cached by the first call' is refuted by TLC); each sequence is replayed in ONE "
+            "process whose TZ is that rule through DateTime<Local>, a jiff Zoned of the same zone and OffsetDateTime, and "
+            "seeded sequences over 1970-2100 are judged by TLC with the zone's offset computed in the spec.",
     "note": "Trusted: TLC, the transcription of ISO 32000-1 7.9.4 in Dates!Fmt/Parse, the harness's construction of backend "
             "values from (day, second, offset). DateTime<Local> is driven in a child process per offset with TZ set to a "
             "fixed POSIX offset; instants a backend's own type cannot hold (jiff: after 9999-12-30T22:00:00Z) are skipped. "
@@ -33,6 +38,10 @@ ASSUMPTIONS = [
     "All parsing runs in a child whose zone (UTC+07:17 / UTC-03:11) differs from the offset of every parsed string; a jiff "
     "parse that fails while jiff cannot look up 'GMT'/'UTC' (no tz database on the machine) is skipped as env_skipped.",
     "A value the backend's own type cannot represent (jiff Timestamp/Zoned after 9999-12-30T22:00:00Z) is skipped (na_skipped).",
+    "Zones with a rule: TZ is a POSIX rule string (no tz database needed); a conversion is judged only when the value "
+    "handed to lopdf has the offset the spec computes from the rule for that instant (chrono's / jiff's own zone "
+    "arithmetic is not under test; counted as zone_env_skipped, vacuity error above 5%); time has no local-zone path in "
+    "the harness build (feature local-offset is off), it is handed the rule's offset explicitly in the same process.",
     "chrono's parsed DateTime<Local> keeps no offset from the string: only the instant is compared for that backend.",
     "For the minute-precision / date-only forms the statement only says they parse; the check also compares the value "
     "with ISO 32000-1 7.9.4 (omitted fields 0, no UT relation = GMT); such a mismatch has its own signature.",
@@ -48,6 +57,8 @@ def b2s(bs):
 def signature(kind, cls):
     """Narrow class of a failing case.  cls comes from the spec-level classifier (OffClass / YearClass / form)."""
     if kind in ("fmt-mismatch", "fmt-panic"):
+        return "C18:%s.%s.%s.%s" % (kind, cls[0], cls[1], cls[2])
+    if kind in ("zfmt-mismatch", "zfmt-panic"):                    # backend x history phase x offset class
         return "C18:%s.%s.%s.%s" % (kind, cls[0], cls[1], cls[2])
     if kind == "parse-fail" and cls[1] != "full":
         return "C18:parse-fail.%s.%s" % (cls[0], cls[1])          # backend x form
@@ -132,7 +143,61 @@ def group(recs):
 
 def new_stats():
     return {"na_skipped": 0, "env_skipped": 0, "fmt_ok": 0, "parse_ok": 0, "unjudged_strings": 0, "model_drift": 0,
-            "pairs": set()}
+            "pairs": set(), "zone_env_skipped": 0, "zfmt_judged": 0, "zfmt_ok": {}}
+
+
+def rule_tz(r):
+    """POSIX TZ string of a rule record (same formatting as the harness): offsets are west-positive there."""
+    po = lambda east: "%s%d:%02d" % ("-" if east > 0 else "", abs(east) // 60, abs(east) % 60)
+    hms = lambda t: "%d:%02d:%02d" % (t // 3600, t // 60 % 60, t % 60)
+    if r["std"] == r["dst"]:
+        return "XST" + po(r["std"])
+    return "XST%sXDT%s,M%d.%d.%d/%s,M%d.%d.%d/%s" % (po(r["std"]), po(r["dst"]), r["sm"], r["sw"], r["sd"], hms(r["st"]),
+                                                     r["em"], r["ew"], r["ed"], hms(r["et"]))
+
+
+def to_seqs(zs):
+    return [{"run": k, "tz": rule_tz(z["rule"]), "rule": z["rule"],
+             "steps": [{"day": t["day"], "sod": t["sod"], "off": t["off"]} for t in z["steps"]]} for k, z in enumerate(zs)]
+
+
+def judge_zreplay(zs, recs, stats):
+    """spec -> impl for sequences in one process under a zone with a rule: every produced string must be the one the
+    declarative layer computed (LocalString = Fmt(i, ZoneOffset(rule, i))).  Returns [(signature, detail)]."""
+    out = []
+    by = {}
+    for r in recs:
+        by.setdefault(r["run"], []).append(r)
+    for k, z in enumerate(zs):
+        rs = by.get(k, [])
+        if not rs:
+            raise vlib.ToolError("zreplay lost sequence %d" % k)
+        tz = rule_tz(z["rule"])
+        for r in rs:
+            if r["ev"] == "crash":
+                out.append(("C18:worker-crash", {"tz": tz, "steps": [[t["day"], t["sod"]] for t in z["steps"]],
+                                                 "status": r.get("status")}))
+                continue
+            t = z["steps"][r["step"] - 1]
+            cls = [r["b"], t["phase"], t["offclass"]]
+            det = {"tz": tz, "backend": r["b"], "step": r["step"], "day": t["day"], "sod": t["sod"],
+                   "zone_offset_minutes": t["off"], "expected": b2s(t["str"]),
+                   "converted_before_in_this_process": [b2s(x["str"]) for x in z["steps"][:r["step"] - 1]]}
+            stats["zfmt_judged"] += 1
+            if r["st"] == "na":
+                stats["na_skipped"] += 1
+            elif r["st"] == "env":
+                stats["env_skipped"] += 1
+            elif r["st"] == "panic":
+                out.append((signature("zfmt-panic", cls), dict(det, panic=r.get("msg"))))
+            elif r["loff"] != t["off"]:
+                stats["zone_env_skipped"] += 1      # the backend's own zone arithmetic / TZ gave another offset: not judged
+            elif r["s"] != t["str"]:
+                out.append((signature("zfmt-mismatch", cls), dict(det, got=b2s(r["s"]))))
+            else:
+                key = "%s.%s" % (r["b"], t["phase"])
+                stats["zfmt_ok"][key] = stats["zfmt_ok"].get(key, 0) + 1
+    return out
 
 
 def run(tier):
@@ -209,11 +274,63 @@ def run(tier):
     if thorough:
         rr = tlc("MC_Dates.tla", "MC_Dates_seeded.cfg", workers=16, timeout=3000, name="MC_Dates_seeded")
         chk.add_tlc(rr)
+    # ---------------------------------------------------------------- (M) + (G): local zones with a rule, history
+    # one behaviour = one process converting a sequence of instants of a zone with a daylight-saving rule; the string
+    # is a function of the instant and the rule, never of earlier calls
+    zruns = [("MC_DatesZone_quick.cfg", True)] + ([("MC_DatesZone_thorough.cfg", False)] if thorough else [])
+    for cfg, cov in zruns:
+        rz = tlc("MC_DatesZone.tla", cfg, workers=16 if thorough else 4, coverage=cov, timeout=3000)
+        if cov:
+            vlib.require_coverage(rz, ["Convert"])
+        chk.add_tlc(rz)
+        zs = rz.tagged("ZSEQ")
+        offs = lambda z: [t["off"] for t in z["steps"]]
+        if not any(o[0] != o[1] and o[2] == o[0] for o in map(offs, zs)) or \
+           not any(z["rule"]["std"] > z["rule"]["dst"] - 60 and z["rule"]["std"] != z["rule"]["dst"] for z in zs) or \
+           not any(z["rule"]["sm"] > z["rule"]["em"] for z in zs) or not any(z["rule"]["std"] == z["rule"]["dst"] for z in zs):
+            raise vlib.ToolError("vacuous: no sequence crossing a clock change both ways / half-hour shift / southern "
+                                 "rule / fixed zone generated")
+        zin, zout = os.path.join(w, "zseq.ndjson"), os.path.join(w, "zseq.out.ndjson")
+        write_ndjson(zin, to_seqs(zs))
+        run_bin("c18", ["zreplay", "--in", zin, "--out", zout])
+        zrecs = read_ndjson(zout)
+        for sig, det in judge_zreplay(zs, zrecs, stats):
+            chk.violation(sig, det)
+        for z in zs:
+            chk.case((rule_tz(z["rule"]),) + tuple((t["day"], t["sod"]) for t in z["steps"]))
+        chk.traces += len(zs)
+        chk.extra["replayed_sequences"] = chk.extra.get("replayed_sequences", 0) + len(zs)
+        if cov:
+            z = next(z for z in zs if offs(z)[0] != offs(z)[1] and offs(z)[2] == offs(z)[0])
+            k = zs.index(z)
+            chk.sample({"generated_sequence_in_one_process": {"TZ": rule_tz(z["rule"]),
+                                                              "instants": [[t["day"], t["sod"]] for t in z["steps"]]},
+                        "spec_strings": [b2s(t["str"]) for t in z["steps"]],
+                        "lopdf_chrono_local": [b2s(x["s"]) for x in zrecs
+                                               if x.get("run") == k and x.get("b") == "chrono_local" and x["ev"] == "zfmt"]})
+            # (B) replay-side negative control: the string of the first offset expected at a step whose offset changed
+            bad = json.loads(json.dumps(z))
+            bad["steps"][1]["str"] = bad["steps"][1]["str"][:16] + bad["steps"][0]["str"][16:]
+            nb = judge_zreplay([bad], [dict(x, run=0) for x in zrecs if x.get("run") == k], new_stats())
+            if not any(sg.startswith("C18:zfmt-mismatch") for sg, _ in nb):
+                raise vlib.ToolError("zone replay negative control not rejected")
+            neg_rejected += 1
+    # the seeded design "offset suffix rendered by the first call of the process and reused" must be refuted by TLC on
+    # the zones with two offsets (and, thorough, cannot be on fixed zones: the blind spot of one process per fixed TZ)
+    rs = tlc("MC_DatesZone.tla", "MC_DatesZone_seeded.cfg", workers=4, allow_violation=True, name="MC_DatesZone_seeded")
+    if rs.violation != "LocalRefines":
+        raise vlib.ToolError("the model does not refute the cached-offset design on zones with two offsets")
+    chk.add_tlc(rs)
+    if thorough:
+        chk.add_tlc(tlc("MC_DatesZone.tla", "MC_DatesZone_seeded_fixed.cfg", workers=4, name="MC_DatesZone_seeded_fixed"))
     # ---------------------------------------------------------------- (V)
     n = 4000 if thorough else 300
     tr = os.path.join(w, "trace.ndjson")
     run_bin("c18", ["record", "--seed", vlib.seed(), "--n", n, "--out", tr])
-    recs = read_ndjson(tr)
+    ztr = os.path.join(w, "ztrace.ndjson")
+    run_bin("c18", ["zrecord", "--seed", vlib.seed(), "--n", 1500 if thorough else 64, "--out", ztr])
+    recs = read_ndjson(tr) + read_ndjson(ztr)
+    write_ndjson(tr, recs)
     okrecs = validate(chk, tr, recs, stats)
     nneg = 0
     vac = list(stats.pop("vacuity", []))
@@ -234,13 +351,20 @@ def run(tier):
         q = json.loads(json.dumps(q))
         q["off"] += 1                                           # one minute of offset off
         neg.append((q, "parse-offset"))
+        zc = pick(lambda x: x["ev"] == "zfmt" and x["b"] == "chrono_local" and x["step"] > 1, "accepted later conversion of a run")
+        z1 = pick(lambda x: x["ev"] == "zfmt" and x["b"] == "chrono_local" and x["step"] == 1 and x["run"] == zc["run"],
+                  "first conversion of that run")
+        neg.append((z1, "ok"))
+        zc = json.loads(json.dumps(zc))
+        zc["s"][18] = 48 + (zc["s"][18] - 48 + 1) % 10          # another hour in the offset suffix
+        neg.append((zc, "zfmt-mismatch"))
         ntr = os.path.join(w, "neg.ndjson")
         write_ndjson(ntr, [x for x, _ in neg])
         rn = tlc("Trace_Dates.tla", "Trace_Dates.cfg", workers=1, env={"TRACE": ntr}, deque=True, name="c18neg")
         vs = rn.tagged("VERDICT")
         if len(vs) != len(neg) or any(v["v"] != want for v, (_, want) in zip(vs, neg)):
             raise vlib.ToolError("negative control was not rejected by Trace_Dates: %s" % vs)
-        nneg = len(neg)
+        nneg = len(neg) - 1
     except vlib.ToolError as e:
         vac.append(str(e))
     chk.extra["negative_controls_rejected"] = neg_rejected + nneg
@@ -249,6 +373,13 @@ def run(tier):
     if stats["env_skipped"] * 20 > total_local:
         vac.append("chrono Local could not be driven through TZ for %d of %d conversions" % (
             stats["env_skipped"], total_local))
+    if stats["zone_env_skipped"] * 20 > stats["zfmt_judged"]:
+        vac.append("zones with a rule could not be driven: the backend's offset differed from the rule's for %d of %d "
+                   "conversions" % (stats["zone_env_skipped"], stats["zfmt_judged"]))
+    missing = [k for k in ("%s.%s" % (b, ph) for b in ("chrono_local", "jiff_zoned", "time_odt")
+                           for ph in ("first", "same", "changed")) if stats["zfmt_ok"].get(k, 0) < 10]
+    if missing:
+        vac.append("vacuous: conversions in a zone with a rule never accepted for %s" % missing)
     pairs = stats.pop("pairs")
     want_pairs = {(s, p) for s in ("chrono_local", "chrono_utc", "jiff_zoned", "jiff_timestamp", "time_odt")
                   for p in ("chrono", "jiff")} | {(s, "time") for s in ("chrono_local", "jiff_zoned", "time_odt")}
@@ -285,8 +416,19 @@ def validate(chk, tr, recs, stats):
             if rec["b"] == "chrono_local":
                 chk.case((rec["day"], rec["sod"], rec["off"]))
             seen_cls.add(tuple(v["cls"][1:]))
+        if rec["ev"] == "zfmt":
+            stats["zfmt_judged"] += 1
+            if rec["b"] == "chrono_local":
+                chk.case((rec["tz"], rec["day"], rec["sod"]))
+            if kind == "ok":
+                key = "%s.%s" % (rec["b"], v["cls"][1])
+                stats["zfmt_ok"][key] = stats["zfmt_ok"].get(key, 0) + 1
+            elif kind == "ok-env-zone":
+                stats["zone_env_skipped"] += 1
         if kind == "spec-inconsistent":
             raise vlib.ToolError("Dates disagrees with itself on %s" % json.dumps(rec))
+        if kind == "trace-order":
+            raise vlib.ToolError("records of one process are not consecutive in the trace: %s" % json.dumps(rec)[:300])
         if kind.startswith("ok"):
             chk.traces += 1
             okc += 1
@@ -301,7 +443,7 @@ def validate(chk, tr, recs, stats):
             if kind == "ok":
                 okrecs.append(rec)
             continue
-        det = {k: rec[k] for k in rec if k not in ("s", "in", "hi_day", "hi_sod")}
+        det = {k: rec[k] for k in rec if k not in ("s", "in", "hi_day", "hi_sod", "rule")}
         if "s" in rec:
             det["got"] = b2s(rec["s"])
         if "in" in rec:
